@@ -203,6 +203,9 @@ def _save_file(
         tensor = value.const_value
         assert tensor is not None
         if tensor.nbytes < size_threshold_bytes:
+            if isinstance(tensor, ir.ExternalTensor):
+                # Below the threshold: keep the data with the model instead of pointing at the old file
+                value.const_value = ir.external_data.convert_tensors_from_external([tensor])[0]
             continue
         tensors_to_save.append(tensor)
         values_to_save.append(value)
